@@ -149,6 +149,13 @@ type script struct {
 	tail   bool
 	cutAt  int  // where the frame of a "cut" envelope ends: n > 0 after n octets, 0 in the middle, n < 0 -n octets short
 	eof    bool // after the script: connection closed (true) or silent (false)
+	// how the stream reaches the reader (TCP segmentation): "" as fed, "byte" one octet per read, "prefix" a segment
+	// boundary between the two length octets of every envelope, "at" a single boundary at stream offset segAt
+	seg   string
+	segAt int
+	// envelope fatEnv (1-based, 0 = none) is padded to exactly fatSize wire octets (TSIG included) with a filler TXT
+	// record in the additional section: the answer section, hence the transfer, is unchanged
+	fatEnv, fatSize int
 }
 
 // macShapes: fault kind -> number of MAC octets kept, given the length of the full MAC
@@ -226,25 +233,41 @@ func build(s *script, queryOctets []byte) []envelope {
 		}
 		var out []byte
 		var err error
-		if s.tsig {
-			key, sec := 1, secretGood
-			if has(s.faults, "wrongkey", i) {
-				key, sec = 2, secretBad
+		emit := func() string { // packs (and signs) m as it stands; returns the MAC
+			if !s.tsig {
+				out, err = m.Pack()
+				return ""
 			}
-			timers := 0
-			if i > 1 {
-				timers = 1
+			sec := secretGood
+			if has(s.faults, "wrongkey", i) {
+				sec = secretBad
 			}
 			m.SetTsig(keyName, keyAlg, 300, now)
 			var mac string
-			out, mac, err = dns.TsigGenerate(m, sec, prevMAC, i > 1)
-			prevMAC = mac
-			e.Sig = []int{key, i - 1, timers, 1}
-		} else {
-			out, err = m.Pack()
+			out, mac, err = dns.TsigGenerate(m, sec, prevMAC, i > 1) // (removes the TSIG stub from m again)
+			return mac
+		}
+		mac := emit()
+		if err == nil && i == s.fatEnv && s.fatSize > len(out)+16 {
+			m.Extra = append(m.Extra, filler(s.fatSize-len(out)))
+			mac = emit()
+			if err == nil && len(out) != s.fatSize {
+				hx.Die("padding envelope %d to %d octets gave %d", i, s.fatSize, len(out))
+			}
 		}
 		if err != nil {
 			hx.Die("building envelope %d: %v", i, err)
+		}
+		if s.tsig {
+			key, timers := 1, 0
+			if has(s.faults, "wrongkey", i) {
+				key = 2
+			}
+			if i > 1 {
+				timers = 1
+			}
+			prevMAC = mac
+			e.Sig = []int{key, i - 1, timers, 1}
 		}
 		if has(s.faults, "alter", i) {
 			out[3] ^= 0x80 // the RA flag: the message still parses, its content is no longer what was signed
@@ -311,6 +334,21 @@ func build(s *script, queryOctets []byte) []envelope {
 	return envs
 }
 
+// filler: a TXT record "pad.example." that takes exactly n wire octets (n >= 24).
+func filler(n int) dns.RR {
+	t := &dns.TXT{Hdr: dns.RR_Header{Name: "pad." + zone, Rrtype: dns.TypeTXT, Class: dns.ClassINET, Ttl: 0}}
+	rd := n - (len("pad."+zone) + 1 + 10) // owner name on the wire, type, class, ttl, rdlength
+	if rd < 1 {
+		hx.Die("filler of %d octets", n)
+	}
+	for rd > 256 {
+		t.Txt = append(t.Txt, strings.Repeat("x", 255))
+		rd -= 256
+	}
+	t.Txt = append(t.Txt, strings.Repeat("x", rd-1)) // 1 .. 256 octets left: a string of 0 .. 255 characters
+	return t
+}
+
 type observation struct {
 	Delivered [][]rec `json:"delivered"`
 	Err       bool    `json:"err"`
@@ -329,6 +367,7 @@ func run(s *script) (envs []envelope, frames [][]byte, obs observation, fatal st
 			hx.Die("short write from Transfer.In")
 		}
 		envs = build(s, p[2:])
+		off := 0
 		for _, e := range envs {
 			fr := pipe.Frame(e.wire)
 			if e.Cut {
@@ -341,8 +380,18 @@ func run(s *script) (envs []envelope, frames [][]byte, obs observation, fatal st
 				}
 				fr = fr[:at]
 			}
+			if s.seg == "prefix" { // a segment ends after the first length octet of this envelope
+				c.Bounds = append(c.Bounds, off+1)
+			}
+			off += len(fr)
 			frames = append(frames, fr)
 			c.Feed(fr)
+		}
+		switch s.seg {
+		case "byte":
+			c.MaxRead = 1
+		case "at":
+			c.Bounds = []int{s.segAt}
 		}
 		c.EOF = s.eof
 	}
@@ -431,14 +480,54 @@ func replay(path string) {
 				}
 			}
 		}
+		try := func() {
+			sum.Evaluations++
+			if p := hx.Catch(func() { one(v, &s, &sum) }); p != "" {
+				sum.Mis("xfr/in-"+v.Mode+":panic", "panic: "+p, v)
+			}
+		}
+		// every behaviour: connection closed / silent at the end x stream as fed, one octet per read, a segment
+		// boundary inside every length prefix
 		for _, eof := range []bool{true, false} {
 			for _, c := range cuts {
 				s.eof, s.cutAt = eof, c
-				sum.Evaluations++
-				if p := hx.Catch(func() { one(v, &s, &sum) }); p != "" {
-					sum.Mis("xfr/in-"+v.Mode+":panic", "panic: "+p, v)
+				s.seg = []string{"", "prefix", "byte"}[(i+len(cuts)+b2i(eof))%3]
+				try()
+				if len(cuts) == 1 {
+					s.seg = []string{"byte", "", "prefix"}[(i+b2i(eof))%3]
+					try()
 				}
 			}
+		}
+		s.eof, s.cutAt, s.seg = i%2 == 0, 0, ""
+		// a sample: one segment boundary at every offset of the stream
+		if every := 101; (hx.Thorough() && i%11 == 0) || i%every == 0 {
+			probe := s
+			_, frames, _, _ := run(&probe)
+			total := 0
+			for _, f := range frames {
+				total += len(f)
+			}
+			for o := 1; o < total && o < 1500; o++ {
+				s.seg, s.segAt = "at", o
+				try()
+			}
+			s.seg = ""
+		}
+		// a sample: one envelope (first, middle, last) padded to a size around the 4096 mark, to 16 KiB, to nearly 64 KiB
+		if every := 37; (hx.Thorough() && i%5 == 0) || i%every == 0 {
+			k := len(v.Lens)
+			for _, pos := range uniq([]int{1, (k + 1) / 2, k}) {
+				for _, size := range []int{4095, 4096, 4097, 4098, 16384, 65000} {
+					s.fatEnv, s.fatSize = pos, size
+					s.seg = []string{"", "prefix", "byte"}[(pos+size)%3]
+					if size > 20000 {
+						s.seg = ""
+					}
+					try()
+				}
+			}
+			s.fatEnv, s.fatSize, s.seg = 0, 0, ""
 		}
 		if i%1499 == 0 {
 			sum.Sample(v)
@@ -446,6 +535,27 @@ func replay(path string) {
 	})
 	sum.Nontrivial = len(seen)
 	sum.Print()
+}
+
+func b2i(b bool) int {
+	if b {
+		return 1
+	}
+	return 0
+}
+
+func uniq(xs []int) []int {
+	var out []int
+	for _, x := range xs {
+		dup := x < 1
+		for _, y := range out {
+			dup = dup || x == y
+		}
+		if !dup {
+			out = append(out, x)
+		}
+	}
+	return out
 }
 
 func numeric(q []int) uint32 { return serialOf(q[0], q[1]) }
@@ -461,7 +571,7 @@ func one(v *vec, s *script, sum *hx.Summary) {
 		return
 	}
 	pre := "xfr/in-" + v.Mode + ":"
-	what := fmt.Sprintf("%s q=%d stream=%v partition=%v tsig=%v fault=%v tail=%v eof=%v: ", v.Mode, numeric(v.Q), v.R, v.Lens, v.Tsig, v.Fault, v.Tail, s.eof)
+	what := fmt.Sprintf("%s q=%d stream=%v partition=%v tsig=%v fault=%v tail=%v eof=%v seg=%s@%d fat=%d:%d: ", v.Mode, numeric(v.Q), v.R, v.Lens, v.Tsig, v.Fault, v.Tail, s.eof, s.seg, s.segAt, s.fatEnv, s.fatSize)
 	got := fmt.Sprintf("delivered %v, error %q", obs.Delivered, obs.ErrText)
 	if !obs.ChClosed || !obs.ConnClose {
 		sum.Mis(pre+"not-closed", what+fmt.Sprintf("channel closed %v, connection closed %v", obs.ChClosed, obs.ConnClose), v)
@@ -644,6 +754,15 @@ func recordIn(out string, n int) {
 		if rnd.Intn(2) == 0 {
 			s.cutAt = 1 + rnd.Intn(40)
 		}
+		s.seg = []string{"", "byte", "prefix", "at"}[rnd.Intn(4)]
+		s.segAt = 1 + rnd.Intn(300)
+		if rnd.Intn(4) == 0 {
+			s.fatEnv = 1 + rnd.Intn(k)
+			s.fatSize = []int{4095, 4096, 4097, 5000, 16384, 40000, 65000}[rnd.Intn(7)]
+			if s.seg == "byte" && s.fatSize > 20000 {
+				s.seg = "prefix"
+			}
+		}
 		envs, _, obs, fatal := run(&s)
 		sum.Evaluations++
 		if fatal != "" {
@@ -651,7 +770,7 @@ func recordIn(out string, n int) {
 			continue
 		}
 		w.Emit(inEvent{Ev: "in", I: c + 1, Mode: s.mode, Q: []int{s.q[0], s.q[1]}, Tsig: s.tsig, EOF: s.eof, Envs: envs, Obs: obs,
-			Desc: fmt.Sprintf("%s, %d records in %d envelopes, faults %v, tail %v", desc, len(R), len(lens), s.faults, s.tail)})
+			Desc: fmt.Sprintf("%s, %d records in %d envelopes, faults %v, tail %v, segmentation %s@%d, envelope %d padded to %d octets", desc, len(R), len(lens), s.faults, s.tail, s.seg, s.segAt, s.fatEnv, s.fatSize)})
 	}
 	sum.Nontrivial = w.N
 	sum.Print()
